@@ -59,8 +59,18 @@ def _setter(ck, prog):
         raise Undecided("setPhosPhoSites: expected one loop over the requested sites", f.loc())
     loop = loops[0]
     param = f.params()[1]
-    ck.ob("FOLD", construct, isinstance(loop.iter, ast.Name) and loop.iter.id == param, expected="every requested site is visited, in order",
-          found=unparse(loop.iter), slot="domain", where=f.loc(loop))
+    # what the loop runs over: the parameter itself, or a local that is the parameter after scalar-to-list normalisation
+    it = loop.iter
+    if isinstance(it, ast.Name) and it.id != param:
+        defs = [n.value for n in ast.walk(f.node) if isinstance(n, ast.Assign) and len(n.targets) == 1 and isinstance(n.targets[0], ast.Name) and n.targets[0].id == it.id]
+        ck.shape(len(defs) == 1, "setPhosPhoSites: the loop's list is assigned once", f.loc(loop))
+        it = defs[0]
+    txt = unparse(it).replace(" ", "")
+    same = txt == param or (isinstance(it, ast.IfExp) and {unparse(it.body).replace(" ", ""), unparse(it.orelse).replace(" ", "")} == {"[%s]" % param, param})
+    changed = any(txt.startswith(p_ % param) for p_ in ("sorted(%s", "set(%s", "reversed(%s", "list(set(%s", "%s[1:", "%s[:-1", "%s[::-1"))
+    ck.shape(same or changed, "setPhosPhoSites: loop over the requested sites (found %s)" % unparse(loop.iter), f.loc(loop))
+    ck.ob("FOLD", construct, same, expected="every requested site is visited, in order",
+          found=unparse(it), slot="domain", where=f.loc(loop))
     ev = Evaluator(prog, positive=("N",))
     ev.int_atoms = {"site"}
     fr = _Frame(f, 0)
